@@ -93,6 +93,9 @@ def c05_block(e1: int, p1: int, e2: int, p2: int, g2: int, d: int) -> bool:
             w.boot([wa, wb])
         if S.get('dmax', 0) > 0 and d > 0:
             k.injections.append({'at_call': k.calls + d, 'victim': ('nth', 0), 'status': core.status_signal(9)})
+        if S.get('streams') and S.get('wbytes'):
+            # a worker has written exactly `wbytes` bytes (a multiple of the 1024-byte read size) and is quiet since
+            k.pipes.write(k.alive_pids('a')[0], 'stdout', b'x' * S['wbytes'])
         if S.get('eagain'):
             # from now on every fork fails with EAGAIN (process table / RLIMIT_NPROC exhausted): a persistent condition
             import errno as _errno
@@ -220,6 +223,8 @@ def plan(tier):
     sh.append({'e1': 0, 'beh': 0, 'on_demand': True})          # a stopped on_demand watcher waiting for its first connection
     for e in (3, 4, 6, 7, 11, 13):       # incr, decr, restart, reload, stop, kill: with captured output and a helper child holding the pipes
         sh.append({'e1': e, 'beh': 0, 'streams': True})
+    for e, nb in ((0, 1024), (10, 2048), (3, 1024)):       # check / time / incr while exactly k x 1024 bytes of output are pending
+        sh.append({'e1': e, 'beh': 0, 'streams': True, 'wbytes': nb})
     for e in (0, 3, 6, 12):              # check, incr, restart, start while fork fails persistently with EAGAIN
         sh.append({'e1': e, 'beh': 0, 'eagain': True})
     sh.append({'e1': 12, 'beh': 0, 'respawn': False})
